@@ -665,6 +665,10 @@ def corpus():
     out.append(_case({'P1': glob}, {'P1': gt}, {'G': {'k1': {}}}, [
         _u({'G': {'_generate': [gen]}}, ops=['generate']),
         _u({'G': {'_delete': ['new', 'k1']}}, ops=['delete'])]))
+    # F52: the initial state of a generated child names a variable that only the collection's sub-schema declares
+    out.append(_case({'P1': glob}, {'P1': gt}, {'G': {'k1': {'m': 7}}}, [
+        _u({'G': {'_generate': [{'key': 'n', 'processes': {}, 'topology': {}, 'initial_state': {'m': 9}}]}},
+           ops=['generate'])]))
     # engine: a scripted process adds and deletes through a port (test_add_delete inside an Engine)
     drv = PD('DRV0', False, {'t0': {}, 't1': {}}, 1)
     out.append(_case({'P1': glob, 'DRV0': drv}, {'P1': gt, 'DRV0': {'t0': ('G',), 't1': ('A',)}},
